@@ -72,6 +72,8 @@ Definition sop_valid (o : sop) : Prop :=
   match o with
   | SAdd p _ => pid p < M
   | SAddReal p _ _ => pid p < M
+  | SReport p => pid p < M
+  | SDrainPick p _ _ => pid p < M
   | SRemove p => pid p < M
   | _ => True
   end.
@@ -82,3 +84,7 @@ Definition op_nofail (o : op) : Prop :=
   | Add _ e => forall q, probe e q <> PLocalFail
   | _ => True
   end.
+
+(* a system history in which the table is only reached through the protocol (KademliaProtocol._add_peer directly or
+   through the queue of routing_table_task), never through a caller-supplied probe *)
+Definition sop_proto (o : sop) : Prop := match o with SAdd _ _ => False | _ => True end.
